@@ -1,6 +1,7 @@
 SPECIFICATION Spec
 CONSTANTS
   MaxQ = 1
+  TwoPackets = FALSE
   KnownUniverse = {"ptr", "srv", "a"}
   Deviations = {"a"}
   QuarterRule = TRUE
